@@ -226,6 +226,7 @@ fn f5() {
 ///         committed); readers compute N0 = I0 - I1 + 1000*(I0 mod 7) style witnesses and must never see I0 != I1,
 ///         and after each of its own commits the writer must read its own value back (F6);
 ///  pinned: a tracked engine that stays alive must keep answering from its snapshot, the session must wait.
+thread_local! { static CANCELLED: std::cell::RefCell<Vec<String>> = const { std::cell::RefCell::new(Vec::new()) }; }
 fn c04(args: &[String]) {
     let millis: u64 = args[0].parse().unwrap();
     let readers: usize = args[1].parse().unwrap();
@@ -237,8 +238,13 @@ fn c04(args: &[String]) {
     prog.exprs.insert(n(2), Expr::Read(i(1)));
     prog.exprs.insert(n(0), Expr::Add(Box::new(Expr::Read(n(1))), Box::new(Expr::Mul(Box::new(Expr::Const(-1)), Box::new(Expr::Read(n(2)))))));
     prog.exprs.insert(n(3), Expr::Add(Box::new(Expr::Read(i(0))), Box::new(Expr::Const(1))));
+    // a long chain over I0 (its dirt takes a while to travel): used by the cancelled-commit rounds
+    const CHAIN: u32 = 250;
+    prog.exprs.insert(n(10), Expr::Read(i(0)));
+    for j in 1..=CHAIN { prog.exprs.insert(n(10 + j), Expr::Add(Box::new(Expr::Read(n(10 + j - 1))), Box::new(Expr::Const(0)))); }
+    let top = n(10 + CHAIN);
     let w = World::new(prog, 0);
-    let runtime = rt(4);
+    let runtime = tokio::runtime::Builder::new_multi_thread().worker_threads(4).thread_stack_size(256 << 20).enable_all().build().unwrap();
     let out = runtime.block_on(async {
         let engine = open_mem(&w).await;
         { let mut s = engine.input_session().await; s.set_input(Var(0), 0).await; s.set_input(Var(1), 0).await; s.commit().await; }
@@ -303,10 +309,46 @@ fn c04(args: &[String]) {
         let progressed = tokio::time::timeout(Duration::from_secs(5), writer).await.is_ok();
         let t = engine.clone().tracked().await;
         let after = query_node(&t, Node { kind: Kind::Normal, idx: 3 }).await;
+        let _ = query_node(&t, top).await;
+        drop(t);
+        // a commit() whose future is dropped after a few polls (select!, timeout, abort): the session
+        // still takes effect all at once - a reader that was waiting in tracked() sees all of it
+        let mut cancelled: Vec<String> = Vec::new();
+        let rounds = 24i64;
+        for round in 1..=rounds {
+            let x = 1000 + round;
+            let mut s = engine.input_session().await;
+            s.set_input(Var(0), x).await;
+            s.set_input(Var(1), x).await;
+            let e = engine.clone();
+            let reader = tokio::spawn(async move {
+                let t = e.tracked().await;
+                let tv = query_node(&t, top).await;
+                let a = query_node(&t, Node { kind: Kind::Input, idx: 0 }).await;
+                let d = query_node(&t, Node { kind: Kind::Normal, idx: 0 }).await;
+                (tv, a, d)
+            });
+            tokio::task::yield_now().await;
+            {
+                let fut = s.commit();
+                tokio::pin!(fut);
+                let polls = (round % 4) as usize + 1;
+                tokio::select! { biased; () = &mut fut => {}, () = async { for _ in 0..polls { tokio::task::yield_now().await; } } => {} }
+            }
+            match tokio::time::timeout(Duration::from_secs(10), reader).await {
+                Ok(Ok((tv, a, d))) => if (tv != a || d != 0) && cancelled.len() < 4 { cancelled.push(format!("round {round}: a reader that waited in tracked() during a cancelled commit() of I0 = I1 = {x} saw I0 = {a}, N{} (= I0 through a chain of {CHAIN} queries) = {tv}, I0 - I1 = {d}", 10 + CHAIN)); },
+                _ => { cancelled.push(format!("round {round}: the reader never returned")); break; }
+            }
+            let t = engine.clone().tracked().await;
+            let tv = query_node(&t, top).await;
+            if tv != x && cancelled.len() < 4 { cancelled.push(format!("round {round}: after the cancelled commit() of I0 = {x} the chain top is {tv}")); }
+        }
+        CANCELLED.with(|c| *c.borrow_mut() = cancelled);
         (sessions, stale, torn.load(Ordering::Relaxed), reads.load(Ordering::Relaxed), writer_waited, before, during, during_i1, progressed, after)
     });
-    println!("{{\"sessions\":{},\"stale_after_own_commit\":{},\"torn_or_unstable_snapshots\":{},\"reader_rounds\":{},\"writer_waited_for_pinned_reader\":{},\"pinned_before\":{},\"pinned_during\":{},\"pinned_during_i1\":{},\"writer_progressed_after_drop\":{},\"after\":{}}}",
-        out.0, out.1, out.2, out.3, out.4, out.5, out.6, out.7, out.8, out.9);
+    let cancelled = CANCELLED.with(|c| c.borrow().clone());
+    println!("{{\"sessions\":{},\"stale_after_own_commit\":{},\"torn_or_unstable_snapshots\":{},\"reader_rounds\":{},\"writer_waited_for_pinned_reader\":{},\"pinned_before\":{},\"pinned_during\":{},\"pinned_during_i1\":{},\"writer_progressed_after_drop\":{},\"after\":{},\"cancelled_commit_rounds\":24,\"cancelled_commit_failures\":{:?}}}",
+        out.0, out.1, out.2, out.3, out.4, out.5, out.6, out.7, out.8, out.9, cancelled);
 }
 
 /// C08: engine crash <seed> <n>: run a history on a db-backed engine over the logging in-memory
